@@ -200,6 +200,54 @@ func ruleCopyLimit(c *Ctx) {
 				stores = append(stores, st)
 			}
 		})
+		// the budget arithmetic may live in a function of its own that the handler hands the
+		// accumulator to (a method of a counter type): the obligations are then stated there, a
+		// parameter standing for the argument the handler passes
+		bf := h
+		var gcall *ssa.Call
+		if len(stores) == 0 {
+			for _, cs := range callsTo(h, func(cc *ssa.CallCommon) bool {
+				g := cc.StaticCallee()
+				return g != nil && g.Pkg == b.Lib && len(g.Blocks) > 0
+			}) {
+				cc, isCall := cs.(*ssa.Call)
+				if !isCall {
+					continue
+				}
+				g := cc.Call.StaticCallee()
+				for ai, a := range cc.Call.Args {
+					if a != acc || ai >= len(g.Params) {
+						continue
+					}
+					var gs []*ssa.Store
+					allInstrs(g, func(i ssa.Instruction) {
+						if st, ok := i.(*ssa.Store); ok && st.Addr == ssa.Value(g.Params[ai]) {
+							gs = append(gs, st)
+						}
+					})
+					if len(gs) > 0 && gcall == nil {
+						bf, gcall, stores = g, cc, gs
+						acc = g.Params[ai]
+					}
+				}
+			}
+		}
+		// a value of the budget function as the handler sees it
+		argIn := func(v ssa.Value) ssa.Value {
+			if gcall == nil {
+				return v
+			}
+			if p, ok := unwrapConv(v).(*ssa.Parameter); ok && p.Parent() == bf {
+				return gcall.Call.Args[paramIdx(p)]
+			}
+			return v
+		}
+		limSrc := func(v ssa.Value) string {
+			return b.limitSource(argIn(v))
+		}
+		accLoad := func(v ssa.Value) bool {
+			return loadOf(v) == acc || loadOf(unwrapConv(v)) == acc
+		}
 		key = "(ii) accumulation: exactly one store, of old total + int64(size of the inserted copy)"
 		var st *ssa.Store
 		var dcCall *ssa.Call
@@ -210,11 +258,11 @@ func ruleCopyLimit(c *Ctx) {
 			bad := "the stored value is not (load of the total) + int64(result 1 of deepCopy): a plain assignment forgets earlier copies"
 			if bo, ok := st.Val.(*ssa.BinOp); ok && bo.Op == token.ADD {
 				x, y := bo.X, bo.Y
-				if loadOf(y) == acc {
+				if accLoad(y) {
 					x, y = y, x
 				}
-				if loadOf(x) == acc {
-					if ex, ok := unwrapConv(y).(*ssa.Extract); ok && ex.Index == 1 {
+				if accLoad(x) {
+					if ex, ok := unwrapConv(argIn(unwrapConv(y))).(*ssa.Extract); ok && ex.Index == 1 {
 						if dc, ok := ex.Tuple.(*ssa.Call); ok {
 							// the same deepCopy whose #0 is inserted
 							for _, a := range containerCalls(h, "add") {
@@ -230,6 +278,19 @@ func ruleCopyLimit(c *Ctx) {
 				}
 			}
 			add(key, b.posOf(st), dcCall != nil, "total = total + int64(deepCopy#1), and deepCopy#0 of the same call is what container.add inserts", bad)
+		}
+
+		// (vii) every copy the handler makes is the one that is charged
+		if dcCall != nil {
+			if dcf := dcCall.Call.StaticCallee(); dcf != nil {
+				bad := ""
+				for _, cs := range callsTo(h, func(cc *ssa.CallCommon) bool { return cc.StaticCallee() == dcf }) {
+					if cs != ssa.CallInstruction(dcCall) {
+						bad = "a second " + fname(dcf) + " at " + b.posOf(cs) + " makes a copy whose size is not added to the running total: what it inserts grows the document outside the limit"
+					}
+				}
+				add("(vii) every copy made in the handler is the one that is charged", b.posOf(dcCall), bad == "", "one "+fname(dcf)+" call in the copy handler, its size is what is accumulated", bad)
+			}
 		}
 
 		// (ii') deepCopy's size is len() of the marshalled bytes, marshalled like the output
@@ -393,7 +454,7 @@ func ruleCopyLimit(c *Ctx) {
 		var conj1, conj2 *ssa.BasicBlock // limit > 0 ; total > limit
 		var c1Succ, c2Succ int
 		badShape := ""
-		for _, bb := range h.Blocks {
+		for _, bb := range bf.Blocks {
 			iff, ok := bb.Instrs[len(bb.Instrs)-1].(*ssa.If)
 			if !ok {
 				continue
@@ -409,7 +470,7 @@ func ruleCopyLimit(c *Ctx) {
 			if neg {
 				trueSucc = 0 // cmpNorm folded the negation into the operator
 			}
-			bs, ss := b.limitSource(big), b.limitSource(small)
+			bs, ss := limSrc(big), limSrc(small)
 			switch {
 			case bs != "" && strings.HasSuffix(bs, "AccumulatedCopySizeLimit"):
 				if z, ok := intConst(small); ok {
@@ -421,7 +482,7 @@ func ruleCopyLimit(c *Ctx) {
 					}
 					conj1, c1Succ = bb, trueSucc
 				}
-			case loadOf(big) == acc && ss != "" && strings.HasSuffix(ss, "AccumulatedCopySizeLimit"):
+			case accLoad(big) && ss != "" && strings.HasSuffix(ss, "AccumulatedCopySizeLimit"):
 				if !strict {
 					badShape = "the limit test at " + b.posOf(iff) + " is `total >= limit`: a total equal to the limit is rejected although it is within the limit"
 				}
@@ -429,7 +490,7 @@ func ruleCopyLimit(c *Ctx) {
 					badShape = "the limit test reads the limit from " + ss + ", expected " + wantSrc
 				}
 				conj2, c2Succ = bb, trueSucc
-			case loadOf(small) == acc && bs != "" && strings.HasSuffix(bs, "AccumulatedCopySizeLimit"):
+			case accLoad(small) && bs != "" && strings.HasSuffix(bs, "AccumulatedCopySizeLimit"):
 				// limit > total / limit >= total: the exceed edge is the false edge
 				if strict {
 					badShape = "the limit test at " + b.posOf(iff) + " is `limit > total` (exceeds when total >= limit): a total equal to the limit is rejected"
@@ -438,7 +499,7 @@ func ruleCopyLimit(c *Ctx) {
 					badShape = "the limit test reads the limit from " + bs + ", expected " + wantSrc
 				}
 				conj2, c2Succ = bb, 1-trueSucc
-			case (loadOf(big) == acc || loadOf(small) == acc) && (bs != "" || ss != ""):
+			case (accLoad(big) || accLoad(small)) && (bs != "" || ss != ""):
 				badShape = "the running total is compared with " + bs + ss + " at " + b.posOf(iff) + ", not with the accumulated-copy-size limit"
 			}
 		}
@@ -472,8 +533,8 @@ func ruleCopyLimit(c *Ctx) {
 				iff2 := if2.(*ssa.If)
 				big, small, _, _ := cmpNorm(iff2.Cond)
 				for _, v := range []ssa.Value{big, small} {
-					if loadOf(v) == acc {
-						if ld, ok := v.(*ssa.UnOp); ok && !b.instrDominates(st, ld) {
+					if accLoad(v) {
+						if ld, ok := unwrapConv(v).(*ssa.UnOp); ok && !b.instrDominates(st, ld) {
 							bad = "the total compared with the limit is read before the addition"
 						}
 					}
@@ -495,7 +556,30 @@ func ruleCopyLimit(c *Ctx) {
 				}
 			}
 			// the insertion happens after the test
+			if gcall != nil {
+				// … which sits in the budget function: the handler inserts only where that
+				// function reported no error, and hands its error back as it is
+				for _, a := range containerCalls(h, "add") {
+					if ok, why := b.successDominates(gcall, a); !ok {
+						bad = "container.add at " + b.posOf(a) + " does not lie behind the success of " + fname(bf) + " (" + why + "): the copy is inserted although the budget is exceeded"
+					}
+				}
+				for _, e := range errResultOf(gcall) {
+					for _, t := range nilTests(h, e) {
+						nb := t.Blk.Succs[t.NonNilSucc]
+						if r, isRet := lastInstr(nb).(*ssa.Return); isRet {
+							ch := c.errFor(b).chain(r.Results[len(r.Results)-1], map[ssa.Value]bool{})
+							if !ch["T:*jsonpatch.AccumulatedCopySizeError"] || len(ch) != 1 {
+								bad = "the handler turns the error of " + fname(bf) + " into " + ch.String() + ", not exactly *AccumulatedCopySizeError"
+							}
+						}
+					}
+				}
+			}
 			for _, a := range containerCalls(h, "add") {
+				if gcall != nil {
+					break
+				}
 				if !conj1.Dominates(a.Block()) || a.Block() == conj1 {
 					bad = "container.add at " + b.posOf(a) + " is not preceded by the limit test (the copy is inserted before the budget is checked)"
 				}
@@ -534,8 +618,12 @@ func ruleCopyLimit(c *Ctx) {
 						// the accumulation must be unreachable from the "no container" edge
 						seen := map[*ssa.BasicBlock]bool{}
 						var reach func(bb *ssa.BasicBlock) bool
+						chargeBlk := st.Block()
+						if gcall != nil {
+							chargeBlk = gcall.Block()
+						}
 						reach = func(bb *ssa.BasicBlock) bool {
-							if bb == st.Block() {
+							if bb == chargeBlk {
 								return true
 							}
 							if seen[bb] {
@@ -711,6 +799,21 @@ func ruleOptScope(c *Ctx) {
 	allowed := map[*ssa.Function]string{ai.handlers["remove"]: "remove handler"}
 	for _, impl := range b.implementations(b.Lib.Type("container").Type(), containerMethod(b, "remove")) {
 		allowed[impl] = "container remove method"
+	}
+	// the containers' remove honours the option, so it is the remove handler's and the move
+	// handler's to call (move's source is pinned by R-MOVE): a replace spelled as remove + add
+	// would have a missing target forgiven and turn into an insertion
+	for _, k := range rfc6902Kinds {
+		h := ai.handlers[k]
+		if h == nil || k == "remove" || k == "move" {
+			continue
+		}
+		key := fmt.Sprintf("handler %q does not go through the container's remove (which honours %s)", k, field)
+		if cs := containerCalls(h, "remove"); len(cs) > 0 {
+			l.add("R-OPTSCOPE", "v5", key, b.posOf(cs[0]), Violated, "the "+k+" handler calls the container's remove with the caller's options: under "+field+" an absent target is forgiven there, so the operation goes on where it has to fail", true)
+		} else {
+			l.add("R-OPTSCOPE", "v5", key, b.rel(h.Pos()), Discharged, "no call of container.remove in the handler", true)
+		}
 	}
 	nReads := 0
 	for _, fn := range b.srcFuncs(b.Lib) {
